@@ -365,10 +365,9 @@ func (e *Engine) mergedContract(c *FuncContract) *FuncContract {
 	m := *c
 	m.Requires = append(append([]Clause{}, base.Requires...), c.Requires...)
 	m.Ensures = append(append([]Clause{}, base.Ensures...), c.Ensures...)
-	if !c.HasMod {
-		m.Modifies = base.Modifies
-		m.HasMod = base.HasMod
-	}
+	// an implementation may touch what the interface allows plus its own representation
+	m.Modifies = append(append([]Clause{}, base.Modifies...), c.Modifies...)
+	m.HasMod = base.HasMod || c.HasMod
 	for k, v := range base.Safety {
 		if _, ok := m.Safety[k]; !ok {
 			m.Safety[k] = v
